@@ -189,11 +189,28 @@ func (s *c40State) edit(stale bool) string {
 		_ = unix.UtimesNanoAt(unix.AT_FDCWD, f, ts, 0)
 		return "stale-content-same-size-mtime-restored"
 	}
-	k := h.Intn(14)
-	if len(s.files) == 0 && (k < 9 || k == 13) {
+	k := h.Intn(18)
+	if k >= 15 {
+		k = 14
+	}
+	if len(s.files) == 0 && (k < 9 || k >= 13) {
 		k = 9
 	}
 	switch k {
+	case 14: // replaced by a different file of the same size with the old mtime: only inode and ctime tell
+		f := filepath.Join(s.src, pickFile())
+		var st unix.Stat_t
+		_ = unix.Lstat(f, &st)
+		b, _ := os.ReadFile(f)
+		if len(b) == 0 {
+			return "none"
+		}
+		b[h.Intn(len(b))] ^= 0x77
+		tmp := f + ".new"
+		_ = os.WriteFile(tmp, b, os.FileMode(st.Mode&0777))
+		_ = unix.UtimesNanoAt(unix.AT_FDCWD, tmp, []unix.Timespec{st.Atim, st.Mtim}, 0)
+		_ = os.Rename(tmp, f)
+		return "replaced-new-inode-same-size-mtime"
 	case 13: // size changes, mtime put back: only the size comparison (and ctime) can notice
 		f := filepath.Join(s.src, pickFile())
 		var st unix.Stat_t
@@ -351,6 +368,11 @@ func (h *H) c40Sequence() {
 			edits = []string{"no-edit"}
 		}
 		ignoreCtime, ignoreInode := h.Intn(3) == 0, h.Intn(3) == 0
+		for _, e := range edits {
+			if e == "replaced-new-inode-same-size-mtime" && h.Intn(3) != 0 {
+				ignoreCtime, ignoreInode = true, false // only the inode comparison can notice the replacement
+			}
+		}
 		if stale {
 			ignoreCtime = h.Intn(4) != 0
 		}
